@@ -134,7 +134,7 @@ def run(ctx_):
     batches = []
     for b in range(nb):
         batches.append(l2obj.gen_methods(rng, nmeth))
-    batches.append(l2obj.gen_methods(rng, 0, with_dup_path=True))      # the K_dup_path witness, alone
+    batches.append(l2obj.gen_methods(rng, 0, with_dup_path=True))      # two fields of one object-bearing struct type (C and Rust sides: the C++ skeleton of a nested object path does not compile, C11 K_nested_obj_path)
     DUP = len(batches) - 1
 
     def do(b):
@@ -172,7 +172,7 @@ def run(ctx_):
         fl = paths.get(b)
         if fl is None:
             continue
-        want = [1] * len(batches[b]) if b != DUP else [0]
+        want = [1] * len(batches[b])        # also for the nested-struct batch since the repair of StructInner::objects
         if fl != want:
             res["corr_broken"].append({"kind": "correspondence", "detail": "object paths of batch %d: model says distinct=%s, the generator built %s" % (b, fl, want)})
 
@@ -191,7 +191,7 @@ def run(ctx_):
             continue
         runs, ends = parse(r["out"])
         base = [0] * 6          # counts before the next call: objects an earlier call leaked stay alive
-        if r["rc"] != 0 and b != DUP:
+        if r["rc"] != 0:
             res["failures"].append({"property": prop, "idl": idl, "what": "the harness aborts (sanitizer report, release of a dead object, or panic)",
                                     "observed": (r["out"][-500:] + "\n" + r["err"][:1800])})
             continue
@@ -202,14 +202,11 @@ def run(ctx_):
                     continue
                 recs = runs.get((caller, impl))
                 if recs is None or len(recs) != 3 * len(scs) or any(x["tag"] == "junk" for x in recs):
-                    if b == DUP:
-                        dup_bad += 1
-                        continue
                     res["failures"].append({"property": prop, "idl": idl, "pairing": "%s stub -> %s skeleton" % (caller, impl),
                                             "what": "log of the pairing is incomplete (%s records for %d calls)" % (recs and len(recs), len(scs)),
                                             "observed": r["out"][-800:] + r["err"][-800:]})
                     continue
-                if b != DUP and not (ends.get((caller, impl)) or "").endswith("impls=0"):
+                if not (ends.get((caller, impl)) or "").endswith("impls=0"):
                     res["failures"].append({"property": prop, "idl": idl, "pairing": "%s stub -> %s skeleton" % (caller, impl),
                                             "what": "implementation objects are still alive after the pairing: %s" % ends.get((caller, impl))})
                 for n, sc in enumerate(scs):
@@ -244,15 +241,11 @@ def run(ctx_):
                 "observed": {"implementation_saw": m["obs"][0], "holders_after_call": m["obs"][1], "counts_after_call": m["obs"][2], "counts_after_drop": m["obs"][3]},
                 "idl": l2obj.render_idl(batches[m["b"]])}
         if fl is None or len(fl) != 5:
-            if m["bad"] and m["b"] != DUP:
+            if m["bad"]:
                 desc["what"] = "; ".join(m["bad"])
                 res["failures"].append(desc)
             continue
         agree = fl[0] == 1 and fl[1] == 1 and fl[2] == 1
-        if m["b"] == DUP:
-            if m["bad"]:
-                dup_bad += 1
-            continue
         if not agree:
             model_dis += 1
             if not m["bad"]:
@@ -263,13 +256,6 @@ def run(ctx_):
                 alias_hits += 1
                 desc["known_class"] = "K_consume_alias"
             res["failures"].append(desc)
-    # the duplicated-path class: the model says the emitters enumerate a path twice; the run must show the damage
-    if dup_bad and paths.get(DUP) == [0]:
-        res["failures"].append({"property": prop, "known_class": "K_dup_path", "idl": l2obj.render_idl(batches[DUP]),
-                                "what": "a struct with two fields of the same object-bearing struct type: %d calls/pairings lose or duplicate an object" % dup_bad})
-    if dup_bad and paths.get(DUP) != [0]:
-        res["failures"].append({"property": prop, "idl": l2obj.render_idl(batches[DUP]),
-                                "what": "%d calls/pairings of the nested-struct method lose or duplicate an object and the model does not predict it" % dup_bad})
     res["coverage"] = {
         "evaluations": nscen, "distinct_nontrivial": ndistinct,
         "rule": "%d generated interfaces of %d methods (1-6 parameters over interface, IFoo, IFoo[1..3], struct SO{interface;u64;u64}, struct ST{IFoo;interface}, uint32, "
@@ -279,7 +265,7 @@ def run(ctx_):
                 % (nb, nmeth, NVAL),
         "samples": [{"idl": l2obj.render_idl(batches[0])[:900]}],
         "parameter_shapes_called": shapes, "pairings": ["%s->%s" % (a, b) for a in SIDES for b in SIDES],
-        "model_disagreements": model_dis, "known_alias_positions_hit": alias_hits, "dup_path_damaged_calls": dup_bad,
+        "model_disagreements": model_dis, "known_alias_positions_hit": alias_hits,
     }
     res["trusted_extra"] = ["lib/l2obj.py + rt/obj/*.c: generator of the three caller/implementation sides and the counting objects; gcc/g++ with ASan/UBSan; rustc"]
     return res
